@@ -54,6 +54,11 @@ type faultCase struct {
 	Damage    string   `json:"damage"`    // pre-damage of the target output file: "", shorter, longer, flip, empty
 	Unrelated int      `json:"unrelated"` // unrelated entries present (1-3)
 	Src       srcFault `json:"src"`
+	// PeerAt > 0: another writer (a second handle on the directory, unmodified cache package, healthy source) is storing the
+	// same content under its own id at the same time; the faulty Put runs - as a whole, up to its halt - when that writer
+	// has copied PeerAt-1 bytes of its second pass, and the other writer then carries on. Only halts are injected here
+	// ("the process stops"): a Put that *fails* truncates the output it shares with the running writer, see DESIGN.
+	PeerAt int `json:"peer_at,omitempty"`
 	K         int      `json:"k"`    // operation index of the file-operation fault (-1: none)
 	Kind      int      `json:"kind"` // fos.Kind
 	Cut       int      `json:"cut"`
@@ -64,6 +69,7 @@ const (
 	sharedID   = 1
 	unrelBase  = 2 // ids 2,3,4
 	danglingID = 5
+	peerID     = 6
 )
 
 var unrelContent = []int{1, 7, 3}
@@ -211,7 +217,64 @@ func validCase(c faultCase) bool {
 	if c.Data == 1 || c.Data == 7 || c.Data == 3 || c.Prev == 1 || c.Prev == 7 || c.Prev == 3 {
 		return false // reserved for the unrelated entries
 	}
+	if c.PeerAt > 0 {
+		k := fos.Kind(c.Kind)
+		halts := c.K < 0 || k == fos.CrashBefore || k == fos.CrashAfter || k == fos.CrashAfterShortWrite
+		if !halts || c.Src.Mode != "" || c.Damage != "" || c.Shared || c.Dangling || c.Leftover || c.Prev == c.Data || c.PeerAt > len(cachekit.Content(c.Data)) || len(cachekit.Content(c.Data)) < 2 {
+			return false
+		}
+	}
 	return c.Kind >= 0 && c.Kind <= int(fos.CrashAfterShortWrite)
+}
+
+// peerSrc is the healthy source of the concurrent writer: in its second pass it hands out the bytes before offset at,
+// and when asked for the byte at that offset it first lets fn run (the faulty Put), then carries on.
+type peerSrc struct {
+	data  []byte
+	off   int
+	pass  int
+	at    int
+	fired bool
+	fn    func()
+}
+
+func (s *peerSrc) Seek(off int64, whence int) (int64, error) {
+	if whence != io.SeekStart {
+		return 0, errors.New("peerSrc: only SeekStart")
+	}
+	s.pass++
+	s.off = int(off)
+	return off, nil
+}
+
+func (s *peerSrc) Read(p []byte) (int, error) {
+	end := len(s.data)
+	if s.pass >= 2 && !s.fired {
+		if s.off < s.at {
+			end = s.at
+		} else if s.off == s.at {
+			s.fired = true
+			s.fn()
+		}
+	}
+	if s.off >= len(s.data) {
+		return 0, io.EOF
+	}
+	n := copy(p, s.data[s.off:end])
+	s.off += n
+	return n, nil
+}
+
+// runPutWithPeer runs the other writer's Put with the faulty Put nested at the chosen point of its copy.
+func runPutWithPeer(d string, c faultCase) (ops []fos.Op, putErr error, crashed bool, peerErr error, fired bool, fail *vt.Fail) {
+	pc, err := cache.Open(d)
+	if err != nil {
+		return nil, nil, false, nil, false, vt.Failf("HARNESS-open", "%v", err)
+	}
+	src := &peerSrc{data: cachekit.Content(c.Data), at: c.PeerAt - 1}
+	src.fn = func() { ops, putErr, crashed, fail = runPut(d, c) }
+	_, _, peerErr = pc.Put(cache.ActionID(cachekit.ID(peerID)), src)
+	return ops, putErr, crashed, peerErr, src.fired, fail
 }
 
 // runPut performs the faulty Put through the instrumented cache; it returns the operation trace.
@@ -245,11 +308,52 @@ func checkFault(c faultCase) *vt.Fail {
 	if f != nil {
 		return f
 	}
+	if c.PeerAt > 0 {
+		ops, putErr, crashed, peerErr, fired, f := runPutWithPeer(d, c)
+		if f != nil {
+			return f
+		}
+		if !fired {
+			return vt.Failf("HARNESS-peer", "the other writer never reached offset %d of its second pass (Put: %v)", c.PeerAt-1, peerErr)
+		}
+		if f := verifyPeer(d, c, ops, putErr, crashed, peerErr); f != nil {
+			return f
+		}
+		return verify(d, c, ops, putErr, crashed)
+	}
 	ops, putErr, crashed, f := runPut(d, c)
 	if f != nil {
 		return f
 	}
 	return verify(d, c, ops, putErr, crashed)
+}
+
+// verifyPeer: what the other writer stored (same content, its own id) while the faulty Put halted next to it.
+func verifyPeer(d string, c faultCase, ops []fos.Op, putErr error, crashed bool, peerErr error) *vt.Fail {
+	ctx := fmt.Sprintf("other writer (id%d, same content) was at offset %d of its copy, its Put returned %v. %s", peerID, c.PeerAt-1, peerErr, describe(c, ops, putErr, crashed))
+	rc, err := cache.Open(d)
+	if err != nil {
+		return vt.Failf("HARNESS-open", "%v", err)
+	}
+	id := cache.ActionID(cachekit.ID(peerID))
+	b, e, err := rc.GetBytes(id)
+	if err == nil {
+		if sha256.Sum256(b) != e.OutputID {
+			return vt.Failf("getbytes-unverified", "GetBytes(id%d) returns %d bytes whose SHA-256 is not the reported OutputID. %s", peerID, len(b), ctx)
+		}
+	} else if !notFound(err) {
+		return vt.Failf("getbytes-other-error", "GetBytes(id%d): %v. %s", peerID, err, ctx)
+	}
+	file, e, err := rc.GetFile(id)
+	if err == nil {
+		fb, rerr := os.ReadFile(file)
+		if rerr != nil || int64(len(fb)) != e.Size || sha256.Sum256(fb) != e.OutputID {
+			return vt.Failf("getfile-names-bad-file", "GetFile(id%d) names a file of %d bytes (reported size %d) whose content does not have the reported OutputID (read err %v). %s", peerID, len(fb), e.Size, rerr, ctx)
+		}
+	} else if !notFound(err) {
+		return vt.Failf("getfile-other-error", "GetFile(id%d): %v. %s", peerID, err, ctx)
+	}
+	return nil
 }
 
 func describe(c faultCase, ops []fos.Op, putErr error, crashed bool) string {
@@ -261,7 +365,11 @@ func describe(c faultCase, ops []fos.Op, putErr error, crashed bool) string {
 	for _, o := range ops {
 		tr = append(tr, o.Desc)
 	}
-	return fmt.Sprintf("scenario{prev=%d data=%d(%d bytes) shared=%v dangling=%v leftover=%v damage=%q} source=%+v fault{op %d=%s kind=%s cut=%d} -> Put err=%v crashed=%v; trace=%v",
+	peer := ""
+	if c.PeerAt > 0 {
+		peer = fmt.Sprintf(" other-writer-at=%d", c.PeerAt-1)
+	}
+	return fmt.Sprintf("scenario{prev=%d data=%d(%d bytes) shared=%v dangling=%v leftover=%v damage=%q"+peer+"} source=%+v fault{op %d=%s kind=%s cut=%d} -> Put err=%v crashed=%v; trace=%v",
 		c.Prev, c.Data, len(cachekit.Content(c.Data)), c.Shared, c.Dangling, c.Leftover, c.Damage, c.Src, c.K, op, fos.Kind(c.Kind), c.Cut, putErr, crashed, tr)
 }
 
@@ -358,6 +466,9 @@ var scenarios = []faultCase{
 	{Prev: -1, Data: 2, Dangling: true, Src: srcFault{Mode: "change", Pass: 2, At: 70}}, {Prev: -1, Data: 5, Src: srcFault{Mode: "change", Pass: 2, At: 2048}},
 	{Prev: -1, Data: 5, Dangling: true, Src: srcFault{Mode: "err", Pass: 2, At: 2048}}, {Prev: 2, Data: 5, Src: srcFault{Mode: "eof", Pass: 2, At: 4000}},
 	{Prev: -1, Data: 5, Shared: true, Src: srcFault{Mode: "extra", Pass: 2}},
+	// another writer is part-way through storing the same content (halts only)
+	{Prev: -1, Data: 5, PeerAt: 1}, {Prev: -1, Data: 5, PeerAt: 2}, {Prev: -1, Data: 5, PeerAt: 2049}, {Prev: -1, Data: 5, PeerAt: 4097}, {Prev: 2, Data: 5, PeerAt: 4096},
+	{Prev: -1, Data: 2, PeerAt: 70}, {Prev: 5, Data: 2, PeerAt: 139}, {Prev: -1, Data: 4, PeerAt: 4096},
 }
 
 var kinds = []fos.Kind{fos.FailBefore, fos.ShortWriteThenFail, fos.CrashBefore, fos.CrashAfter, fos.CrashAfterShortWrite}
@@ -397,7 +508,12 @@ func enumerate(t *testing.T, base faultCase, counts map[string]*cell) (runs, nt 
 		rec.Report("fault", f, base)
 		return 0, 0, false
 	}
-	ops, _, _, f := runPut(d, base)
+	var ops []fos.Op
+	if base.PeerAt > 0 {
+		ops, _, _, _, _, f = runPutWithPeer(d, base)
+	} else {
+		ops, _, _, f = runPut(d, base)
+	}
 	if f != nil {
 		rec.Report("fault", f, base)
 		return 0, 0, false
@@ -416,6 +532,9 @@ func enumerate(t *testing.T, base faultCase, counts map[string]*cell) (runs, nt 
 				}
 				c := base
 				c.K, c.Kind, c.Cut = k, int(kind), cut
+				if !validCase(c) {
+					continue // (a scenario with another writer takes halts only)
+				}
 				runs++
 				key := kind.String()
 				if counts[key] == nil {
@@ -538,6 +657,15 @@ func genFault(t *rapid.T) faultCase {
 	c.K = rapid.IntRange(-1, 16).Draw(t, "k")
 	c.Kind = int(rapid.SampledFrom(kinds).Draw(t, "kind"))
 	c.Cut = rapid.IntRange(0, 5000).Draw(t, "cut")
+	if n := len(cachekit.Content(c.Data)); n >= 2 && rapid.IntRange(0, 4).Draw(t, "peer") == 3 {
+		// another writer of the same content at a drawn offset; halts only, plain scenario
+		p := faultCase{Prev: c.Prev, Data: c.Data, Unrelated: c.Unrelated, K: c.K, Cut: c.Cut, PeerAt: 1 + rapid.IntRange(0, n-1).Draw(t, "peerat")}
+		p.Kind = int(rapid.SampledFrom([]fos.Kind{fos.CrashAfter, fos.CrashBefore, fos.CrashAfterShortWrite}).Draw(t, "peerkind"))
+		if p.Prev == p.Data {
+			p.Prev = -1
+		}
+		return p
+	}
 	return c
 }
 
@@ -546,6 +674,9 @@ func TestRandomProduct(t *testing.T) {
 		cl := []string{"kind=" + fos.Kind(c.Kind).String()}
 		if c.Src.Mode != "" {
 			cl = append(cl, "src="+c.Src.Mode)
+		}
+		if c.PeerAt > 0 {
+			cl = append(cl, "other-writer-of-same-content")
 		}
 		return vt.Meta{NonTrivial: c.K >= 3 || c.Src.Mode != "", Classes: cl}
 	}}, vt.N(1500, 20000))
